@@ -130,7 +130,7 @@ func render(r m.Result, query bool) string {
 func (o *txObs) dump(sch map[string]*m.Schema) string {
 	var sb strings.Builder
 	p := o.Prog
-	fmt.Fprintf(&sb, "session %d tx %d readonly=%v begin-stmt=%v script=%v end=%s committed=%v store-tx=%d begin-after-tx=%d end-error=%q %s\n",
+	fmt.Fprintf(&sb, "session %d tx %d readonly=%v begin-stmt=%v script=%v end=%s committed=%v store-tx=%d begin-after-acked-tx=%d end-error=%q %s\n",
 		o.Sess, o.Seq, p.ReadOnly, p.BeginStmt, p.Script, p.End, o.Committed, o.HeaderID, o.L, o.EndErr, o.EndText)
 	for i, s := range p.Stmts {
 		fmt.Fprintf(&sb, "  [%d] %s\n", i, s.SQL(sch[s.Table]))
@@ -280,6 +280,10 @@ func (k *checker) explainUncommitted(o *txObs) {
 		}
 	}
 	if o.Prog.Script {
+		if k.perUnitScript(o, lo, hi) {
+			k.viol(sigSnap, what+"; one state per table plus the catalog of another state of the window does", o)
+			return
+		}
 		k.viol("sqltx/script-outcome", what, o)
 		return
 	}
@@ -296,6 +300,39 @@ func (k *checker) explainUncommitted(o *txObs) {
 		sig = "sqltx/uncommitted/affected-rows"
 	}
 	k.viol(sig, what+"; not even one state per table/index does", o)
+}
+
+// perUnitScript is attribution pass (b) for a one-call script, of which only the outcome is
+// known: every table may take its rows from its own state of the window, and the catalog
+// (which the transaction got at BEGIN) from yet another one. Exhaustive over a small window.
+func (k *checker) perUnitScript(o *txObs, lo, hi uint64) bool {
+	var names []string
+	for n := range k.states[lo].Tables {
+		names = append(names, n)
+	}
+	sort.Strings(names)
+	w := hi - lo + 1
+	total := uint64(1)
+	for i := 0; i <= len(names); i++ {
+		if total *= w; total > 20000 {
+			return false
+		}
+	}
+	for x := uint64(0); x < total; x++ {
+		db := m.NewDB()
+		y := x
+		cat := lo + y%w
+		y /= w
+		for _, n := range names {
+			rt, ct := k.states[lo+y%w].Tables[n], k.states[cat].Tables[n]
+			y /= w
+			db.Tables[n] = &m.Table{Schema: rt.Schema, Rows: rt.Rows, MaxPK: rt.MaxPK, Checks: ct.Checks, Extra: ct.Extra, Idx: ct.Idx}
+		}
+		if explain(o, db, quirks{}, nil).ok {
+			return true
+		}
+	}
+	return false
 }
 
 // perUnit: attribution pass (b). Every statement touches one table; a hinted query reads it
